@@ -688,15 +688,16 @@ Qed.
 
 (* Phase 1: the remaining part of the forward diff contains no move. Its reversal only deletes the
    created instances; the pointer (an instance of the first list) is never deleted. *)
-Lemma rev_phase1 l1 : forall todo done rest R v,
+Lemma rev_phase1 l1 : forall todo done rest R,
   inv2 l1 done todo rest ->
   count_op OpReplace (map t_op (diff_pass2 l1 todo (done ++ rest) (length done))) = O ->
-  NoDup R -> (forall z, In z todo -> In z R) -> In v R -> In v l1 ->
-  rev_app_st (map t_op (diff_pass2 l1 todo (done ++ rest) (length done))) (R, Some v)
-  = Ok (filter (fun z => mem z l1 || negb (mem z todo)) R, Some v)
+  NoDup R -> (forall z, In z todo -> In z R) ->
+  rev_app_st (map t_op (diff_pass2 l1 todo (done ++ rest) (length done))) (R, hd_error R)
+  = Ok (filter (fun z => mem z l1 || negb (mem z todo)) R,
+        hd_error (filter (fun z => mem z l1 || negb (mem z todo)) R))
   /\ filter (fun z => mem z l1) todo = rest.
 Proof.
-  induction todo as [|y t IH]; intros done rest R v Hinv Hc HdR Hsub HvR Hv1.
+  induction todo as [|y t IH]; intros done rest R Hinv Hc HdR Hsub.
   - apply inv2_nil in Hinv. subst rest. split; [|reflexivity].
     cbn [diff_pass2 map]. unfold rev_app_st. cbn [reverse_ops bind apply_ops_st].
     rewrite filter_id; [reflexivity|]. intros z _. cbn [mem existsb negb]. apply orb_true_r.
@@ -708,30 +709,30 @@ Proof.
       rewrite pass2_create in * by exact Em. cbn [map t_op] in *.
       rewrite count_op_cons in Hc. unfold is_op at 1 in Hc. cbn [d_op] in Hc. cbn [Nat.add] in Hc.
       assert (HyR : In y R) by (apply Hsub; left; reflexivity).
-      assert (Hvy : v <> y). { intros ->. apply mem_nIn in Em. exact (Em Hv1). }
       erewrite rev_app_st_cons.
       2:{ unfold reverse_op. cbn [d_op d_x d_value d_orig]. reflexivity. }
-      2:{ unfold apply_one. cbn [d_op d_x]. apply mem_In in HyR. rewrite HyR. cbn [negb opt_is].
-          destruct (v =? y) eqn:E; [apply N.eqb_eq in E; congruence|]. reflexivity. }
+      2:{ apply apply_delete_hd. exact HyR. }
       destruct (NoDup_remove1 y R HdR) as [HdR' _].
-      destruct (IH (done ++ [y]) rest (remove1 y R) v Hn Hc HdR') as [Ha Hp].
+      destruct (IH (done ++ [y]) rest (remove1 y R) Hn Hc HdR') as [Ha Hp].
       { intros z Hz. apply In_remove1_neq; [intros ->; exact (Hyt Hz)|]. apply Hsub. right. exact Hz. }
-      { apply In_remove1_neq; assumption. }
-      { exact Hv1. }
       rewrite Ha. split.
-      * do 2 f_equal. apply filter_remove1; [exact HdR| |].
-        -- rewrite Em. cbn [mem existsb]. rewrite N.eqb_refl. reflexivity.
-        -- intros z Hz. cbn [mem existsb]. apply N.eqb_neq in Hz. rewrite Hz. reflexivity.
+      * assert (Hf : filter (fun z => mem z l1 || negb (mem z t)) (remove1 y R)
+                     = filter (fun z => mem z l1 || negb (mem z (y :: t))) R).
+        { apply filter_remove1; [exact HdR| |].
+          -- rewrite Em. cbn [mem existsb]. rewrite N.eqb_refl. reflexivity.
+          -- intros z Hz. cbn [mem existsb]. apply N.eqb_neq in Hz. rewrite Hz. reflexivity. }
+        rewrite Hf. reflexivity.
       * cbn [filter]. rewrite Em. exact Hp.
     + (* unchanged instance *)
       rewrite pass2_skip in * by exact Em.
-      destruct (IH (done ++ [y]) rest' R v Hn Hc HdR) as [Ha Hp].
+      destruct (IH (done ++ [y]) rest' R Hn Hc HdR) as [Ha Hp].
       { intros z Hz. apply Hsub. right. exact Hz. }
-      { exact HvR. }
-      { exact Hv1. }
       rewrite Ha. split.
-      * do 2 f_equal. apply filter_ext. intro z. cbn [mem existsb].
-        destruct (z =? y) eqn:E; [|reflexivity]. apply N.eqb_eq in E. subst z. rewrite Em. reflexivity.
+      * assert (Hf : filter (fun z => mem z l1 || negb (mem z t)) R
+                     = filter (fun z => mem z l1 || negb (mem z (y :: t))) R).
+        { apply filter_ext. intro z. cbn [mem existsb].
+          destruct (z =? y) eqn:E; [|reflexivity]. apply N.eqb_eq in E. subst z. rewrite Em. reflexivity. }
+        rewrite Hf. reflexivity.
       * cbn [filter]. rewrite Em, Hp. reflexivity.
     + (* a move: excluded *)
       rewrite pass2_move in Hc by assumption. cbn [map t_op] in Hc.
@@ -739,13 +740,13 @@ Proof.
 Qed.
 
 (* the reversed move: the instance goes back behind its original predecessor o, which lies further
-   down the list; when the moved instance was the first sibling the pointer is set to o *)
+   down the list; when the moved instance was the first sibling the pointer becomes the new first
+   sibling (/repo commit a54f28a; it used to be set to o) *)
 Lemma apply_move_back y o m a t1 t2 :
   NoDup (a ++ y :: t1 ++ o :: t2) ->
-  exists v',
-    apply_one (mkdop OpReplace y (Some (Some o)) m)
-      (a ++ y :: t1 ++ o :: t2, hd_error (a ++ y :: t1 ++ o :: t2))
-    = Ok (a ++ t1 ++ o :: y :: t2, Some v') /\ (v' = o \/ In v' a).
+  apply_one (mkdop OpReplace y (Some (Some o)) m)
+    (a ++ y :: t1 ++ o :: t2, hd_error (a ++ y :: t1 ++ o :: t2))
+  = Ok (a ++ t1 ++ o :: y :: t2, hd_error (a ++ t1 ++ o :: y :: t2)).
 Proof.
   intro Hd. unfold apply_one. cbn [d_op d_x d_value]. unfold st_insert.
   assert (Hy : mem y (a ++ y :: t1 ++ o :: t2) = true).
@@ -771,10 +772,10 @@ Proof.
   2:{ rewrite in_app_iff. intros [H|H]; [exact (Hoa H)|exact (Ho1 H)]. }
   rewrite <- app_assoc.
   destruct a as [|a0 a']; cbn [app hd_error] in Eh; injection Eh as <-.
-  - rewrite N.eqb_refl. exists o. split; [reflexivity|left; reflexivity].
+  - rewrite N.eqb_refl. reflexivity.
   - destruct (a0 =? y) eqn:E0.
     + apply N.eqb_eq in E0. exfalso. apply Hya. left. exact E0.
-    + exists a0. split; [reflexivity|right; left; reflexivity].
+    + reflexivity.
 Qed.
 
 Lemma NoDup_filter_app (f : N -> bool) a b : NoDup (a ++ b) -> NoDup (filter f a ++ b).
@@ -803,14 +804,13 @@ Lemma rev_phase0 l1 : forall todo done rest,
   inv2 l1 done todo rest ->
   (count_op OpReplace (map t_op (diff_pass2 l1 todo (done ++ rest) (length done))) <= 1)%nat ->
   filter (fun z => mem z l1) done ++ rest = l1 ->
-  exists f',
-    rev_app_st (map t_op (diff_pass2 l1 todo (done ++ rest) (length done)))
-      (filter (fun z => mem z l1) done ++ todo, hd_error (filter (fun z => mem z l1) done ++ todo))
-    = Ok (l1, f').
+  rev_app_st (map t_op (diff_pass2 l1 todo (done ++ rest) (length done)))
+    (filter (fun z => mem z l1) done ++ todo, hd_error (filter (fun z => mem z l1) done ++ todo))
+  = Ok (l1, hd_error l1).
 Proof.
   induction todo as [|y t IH]; intros done rest Hinv Hc Hl.
   - apply inv2_nil in Hinv. subst rest. rewrite app_nil_r in Hl. rewrite !app_nil_r, Hl.
-    exists (hd_error l1). reflexivity.
+    reflexivity.
   - set (P := fun z => mem z l1) in *.
     assert (H2 : NoDup (done ++ y :: t)) by apply Hinv.
     assert (Hyt : ~ In y t).
@@ -850,23 +850,18 @@ Proof.
       { destruct Hinv as [_ [_ [_ H4]]]. destruct (H4 o Hor) as [[H|H] _]; [congruence|exact H]. }
       destruct (In_split_first o t Hot) as [t1 [t2 [-> Hot1]]].
       assert (HdR : NoDup (filter P done ++ y :: t1 ++ o :: t2)) by (apply NoDup_filter_app; exact H2).
-      destruct (apply_move_back y o (Some (last_opt done)) _ _ _ HdR) as [v' [Hap Hv']].
+      pose proof (apply_move_back y o (Some (last_opt done)) _ _ _ HdR) as Hap.
       erewrite rev_app_st_cons.
       2:{ unfold reverse_op. cbn [d_op d_x d_value d_orig]. reflexivity. }
       2:{ exact Hap. }
-      assert (Hv1 : In v' l1).
-      { destruct Hv' as [->|H]; [exact Ho1|]. apply filter_In in H. apply mem_In. apply H. }
-      assert (HvR : In v' (filter P done ++ t1 ++ o :: y :: t2)).
-      { destruct Hv' as [->|H]; rewrite !in_app_iff; cbn [In]; tauto. }
       destruct (rev_phase1 l1 (t1 ++ o :: t2) (done ++ [y]) ((r1' ++ [o]) ++ r2)
-                  (filter P done ++ t1 ++ o :: y :: t2) v') as [Ha Hp].
+                  (filter P done ++ t1 ++ o :: y :: t2)) as [Ha Hp].
       { exact Hn. }
       { exact Hc0. }
       { apply NoDup_move_back. exact HdR. }
       { intros z Hz. rewrite !in_app_iff in *. cbn [In] in *. tauto. }
-      { exact HvR. }
-      { exact Hv1. }
-      rewrite Ha. exists (Some v'). do 2 f_equal.
+      rewrite Ha.
+      match goal with |- Ok (?A, _) = Ok (l1, _) => cut (A = l1); [intro HA; rewrite HA; reflexivity|] end.
       (* the filter keeps exactly the instances of the first list *)
       rewrite (filter_ext_in _ P).
       2:{ intros z Hz. unfold P. rewrite !in_app_iff in Hz. cbn [In] in Hz.
@@ -920,8 +915,30 @@ Proof.
   rewrite E in E'. injection E' as ->. cbn [app] in *.
   assert (Hinv : inv2 l1 [] l2 l1).
   { apply inv2_init; [exact H2|exact H1|]. intro z. split; [intro H; split; [exact H|apply Hsub; exact H]|tauto]. }
-  destruct (rev_phase0 l1 l2 [] l1 Hinv Hm eq_refl) as [f' Hr].
+  pose proof (rev_phase0 l1 l2 [] l1 Hinv Hm eq_refl) as Hr.
   cbn [app length filter] in Hr. rewrite Hr. reflexivity.
+Qed.
+
+(* the same fragment with the pointer: *data is the first sibling of the restored list (since /repo
+   commit a54f28a; before, a moved first sibling left the pointer at its anchor) *)
+Lemma reverse_apply_full_userord_partial l1 l2 :
+  NoDup l1 -> NoDup l2 ->
+  count_op OpDelete (userord_diff l1 l2) = O ->
+  (count_op OpReplace (userord_diff l1 l2) <= 1)%nat ->
+  reverse_apply_full (userord_diff l1 l2) l2 = Ok (l1, hd_error l1).
+Proof.
+  intros H1 H2 Hd Hm.
+  assert (E0 : reverse_apply_full (userord_diff l1 l2) l2 = rev_app_st (userord_diff l1 l2) (l2, hd_error l2)).
+  { unfold reverse_apply_full, rev_app_st, apply_ops_full. reflexivity. }
+  rewrite E0. unfold userord_diff, userord_trace in *.
+  destruct (diff_pass1 l1 l2 l1 O) as [ts inst] eqn:E.
+  pose proof (no_delete_pass1_nil l1 l2 ts inst E Hd) as ->.
+  destruct (pass1_nil l2 l1 l1 O) as [E' Hsub]; [rewrite E; reflexivity|].
+  rewrite E in E'. injection E' as ->. cbn [app] in *.
+  assert (Hinv : inv2 l1 [] l2 l1).
+  { apply inv2_init; [exact H2|exact H1|]. intro z. split; [intro H; split; [exact H|apply Hsub; exact H]|tauto]. }
+  pose proof (rev_phase0 l1 l2 [] l1 Hinv Hm eq_refl) as Hr.
+  cbn [app length filter] in Hr. exact Hr.
 Qed.
 
 (* the complement: a diff with a delete can never be reversed - the reversed delete is a create
@@ -966,10 +983,11 @@ Proof. vm_compute. reflexivity. Qed.
 Lemma reverse_missing_anchor : reverse_apply (userord_diff [1; 2; 3] [3]) [3] = Err 1.
 Proof. vm_compute. reflexivity. Qed.
 
-(* a single move of the instance that becomes first: content and order are restored, but the
-   returned *data points at 2, not at the first sibling *)
-Lemma reverse_stale_pointer :
-  reverse_apply_full (userord_diff [1; 2; 3] [3; 1; 2]) [3; 1; 2] = Ok ([1; 2; 3], Some 2).
+(* a single move of the instance that becomes first: content and order are restored and the
+   returned *data points at the first sibling (regression of /repo commit a54f28a: the pointer
+   used to be left at 2) *)
+Lemma reverse_pointer_regression :
+  reverse_apply_full (userord_diff [1; 2; 3] [3; 1; 2]) [3; 1; 2] = Ok ([1; 2; 3], Some 1).
 Proof. vm_compute. reflexivity. Qed.
 
 Lemma reverse_apply_userord_refuted :
@@ -986,12 +1004,12 @@ Proof.
   rewrite reverse_missing_anchor. reflexivity.
 Qed.
 
-Lemma reverse_first_sibling_refuted :
+Lemma reverse_first_sibling_example :
   exists l1 l2 l f, NoDup l1 /\ NoDup l2 /\
     count_op OpDelete (userord_diff l1 l2) = O /\ count_op OpReplace (userord_diff l1 l2) = 1%nat /\
-    reverse_apply_full (userord_diff l1 l2) l2 = Ok (l, f) /\ f <> hd_error l.
+    reverse_apply_full (userord_diff l1 l2) l2 = Ok (l, f) /\ f = hd_error l.
 Proof.
-  exists [1; 2; 3], [3; 1; 2], [1; 2; 3], (Some 2).
+  exists [1; 2; 3], [3; 1; 2], [1; 2; 3], (Some 1).
   split; [exact NoDup_123|]. split; [exact NoDup_312|]. split; [vm_compute; reflexivity|].
-  split; [vm_compute; reflexivity|]. split; [exact reverse_stale_pointer|]. discriminate.
+  split; [vm_compute; reflexivity|]. split; [exact reverse_pointer_regression|]. reflexivity.
 Qed.
